@@ -327,6 +327,62 @@ type goTarget struct {
 	site  ssa.Instruction
 	timer bool
 	bind  func(v ssa.Value) ssa.Value
+	// parent: set for a helper the asynchronously started function calls (its body split into methods): bind
+	// maps the helper's parameters to the arguments of that call, which are values of the parent's function
+	parent *goTarget
+}
+
+// withHelpers adds, for every started function, the helpers of its package it calls directly (one and two
+// levels), each as a target of its own whose parameters resolve through the call's arguments.
+func withHelpers(ts []goTarget) []goTarget {
+	res := append([]goTarget{}, ts...)
+	var add func(t goTarget, depth int)
+	add = func(t goTarget, depth int) {
+		if depth > 2 {
+			return
+		}
+		for _, b := range t.fn.Blocks {
+			for _, ins := range b.Instrs {
+				call, ok := ins.(*ssa.Call)
+				if !ok {
+					continue
+				}
+				h := call.Call.StaticCallee()
+				if h == nil || h.Blocks == nil || h.Pkg == nil || h.Pkg != pkgOfFunc(t.fn) || h == t.fn {
+					continue
+				}
+				pt := t
+				ht := helperTarget(&pt, call, h)
+				res = append(res, ht)
+				add(ht, depth+1)
+			}
+		}
+	}
+	for _, t := range ts {
+		add(t, 1)
+	}
+	return res
+}
+
+func pkgOfFunc(f *ssa.Function) *ssa.Package {
+	for f != nil {
+		if f.Pkg != nil {
+			return f.Pkg
+		}
+		f = f.Parent()
+	}
+	return nil
+}
+
+func helperTarget(parent *goTarget, call *ssa.Call, h *ssa.Function) goTarget {
+	return goTarget{fn: h, site: call, timer: parent.timer, parent: parent, bind: func(v ssa.Value) ssa.Value {
+		for i, p := range h.Params {
+			if ssa.Value(p) == v && i < len(call.Call.Args) {
+				return call.Call.Args[i]
+			}
+		}
+		return v
+	}}
 }
 
 func goTargets(fn *ssa.Function) []goTarget {
@@ -373,6 +429,15 @@ func goTargets(fn *ssa.Function) []goTarget {
 type defSite struct {
 	val ssa.Value
 	blk *ssa.BasicBlock
+	ctx *goTarget // the started function / helper the definition lives in (nil: the starting function)
+}
+
+// resolve resolves an operand of the definition in the definition's own context.
+func (df defSite) resolve(v ssa.Value) []defSite {
+	if df.ctx != nil {
+		return df.ctx.outerDefs(v)
+	}
+	return defSites(v, map[ssa.Value]bool{})
 }
 
 // defSites lists the definitions of a variable-like value: phi edges, or the stores to the cell
@@ -391,7 +456,7 @@ func defSites(v ssa.Value, seen map[ssa.Value]bool) []defSite {
 				res = append(res, defSites(e, seen)...)
 				continue
 			}
-			res = append(res, defSite{e, x.Block().Preds[i]})
+			res = append(res, defSite{val: e, blk: x.Block().Preds[i]})
 		}
 		return res
 	case *ssa.UnOp:
@@ -402,9 +467,9 @@ func defSites(v ssa.Value, seen map[ssa.Value]bool) []defSite {
 		return cellDefs(x, seen)
 	}
 	if ins, ok := v.(ssa.Instruction); ok {
-		return []defSite{{v, ins.Block()}}
+		return []defSite{{val: v, blk: ins.Block()}}
 	}
-	return []defSite{{v, nil}}
+	return []defSite{{val: v}}
 }
 
 func cellDefs(al *ssa.Alloc, seen map[ssa.Value]bool) []defSite {
@@ -415,7 +480,7 @@ func cellDefs(al *ssa.Alloc, seen map[ssa.Value]bool) []defSite {
 				res = append(res, defSites(st.Val, seen)...)
 				continue
 			}
-			res = append(res, defSite{st.Val, st.Block()})
+			res = append(res, defSite{val: st.Val, blk: st.Block()})
 		}
 	}
 	return res
@@ -424,18 +489,70 @@ func cellDefs(al *ssa.Alloc, seen map[ssa.Value]bool) []defSite {
 // outerDefs resolves a value used inside an asynchronously started function to its definitions:
 // loads of by-reference captured variables and parameters are followed into the starting function.
 func (t goTarget) outerDefs(v ssa.Value) []defSite {
+	return t.outerDefsD(v, 0)
+}
+
+func (t goTarget) outerDefsD(v ssa.Value, depth int) []defSite {
 	v = stripConv(v)
+	var bound ssa.Value
 	switch x := v.(type) {
 	case *ssa.UnOp:
 		if fv, ok := x.X.(*ssa.FreeVar); ok && x.Op == token.MUL {
-			return defSites(t.bind(fv), map[ssa.Value]bool{})
+			bound = t.bind(fv)
 		}
 	case *ssa.Parameter:
-		return defSites(t.bind(x), map[ssa.Value]bool{})
+		bound = t.bind(x)
 	case *ssa.FreeVar:
-		return defSites(t.bind(x), map[ssa.Value]bool{})
+		bound = t.bind(x)
 	}
-	return defSites(v, map[ssa.Value]bool{})
+	var res []defSite
+	switch {
+	case bound != nil && t.parent != nil && bound != v:
+		res = t.parent.outerDefsD(bound, depth)
+	case bound != nil:
+		res = defSites(bound, map[ssa.Value]bool{})
+	default:
+		self := t
+		for _, df := range defSites(v, map[ssa.Value]bool{}) {
+			df.ctx = &self
+			res = append(res, df)
+		}
+	}
+	// a value computed by a helper of the package: what the helper returns, in the helper's context
+	if depth > 2 {
+		return res
+	}
+	var out []defSite
+	for _, df := range res {
+		call, ok := df.val.(*ssa.Call)
+		var h *ssa.Function
+		if ok {
+			h = call.Call.StaticCallee()
+		}
+		if h == nil || h.Blocks == nil || h.Pkg == nil || h.Pkg != pkgOfFunc(t.fn) || h.Signature.Results().Len() != 1 {
+			out = append(out, df)
+			continue
+		}
+		par := df.ctx
+		if par == nil {
+			out = append(out, df)
+			continue
+		}
+		ht := helperTarget(par, call, h)
+		n := 0
+		for _, b := range h.Blocks {
+			for _, ins := range b.Instrs {
+				if ret, ok := ins.(*ssa.Return); ok && len(ret.Results) == 1 {
+					out = append(out, ht.outerDefsD(ret.Results[0], depth+1)...)
+					n++
+				}
+			}
+		}
+		if n == 0 {
+			out = append(out, df)
+		}
+	}
+	return out
 }
 
 // guardedByKeyword: block b is reached only through the true edge of a comparison of some string
